@@ -45,13 +45,30 @@ class _Fold(ast.NodeTransformer):
         return node
 
 
-def _expand(stmts, env, consts):
-    """the statements with `for <targets> in <literal tuple/list>` loops unrolled (loop variables substituted)"""
+def _expand(stmts, env, consts, funcs=None, depth=0):
+    """the statements with `for <targets> in <literal tuple/list>` loops unrolled (loop variables substituted) and calls of the
+    script's own functions (other than write_schema) replaced by their bodies"""
     import copy
+    funcs = funcs or {}
     out = []
     for s in stmts:
+        if isinstance(s, ast.Expr) and isinstance(s.value, ast.Call) and isinstance(s.value.func, ast.Name) and s.value.func.id in funcs \
+                and s.value.func.id != "write_schema" and depth < 4:
+            f = funcs[s.value.func.id]
+            from ..norm import bind_call
+            call = _Fold(env).visit(copy.deepcopy(s.value))
+            binds = bind_call(f, call, False)
+            if binds is None or f.args.vararg or f.args.kwarg:
+                return None
+            sub = _expand([x for x in f.body if not (isinstance(x, ast.Expr) and isinstance(x.value, ast.Constant))], dict(binds), consts, funcs, depth + 1)
+            if sub is None:
+                return None
+            out += sub
+            continue
         if isinstance(s, ast.Assign) and len(s.targets) == 1 and isinstance(s.targets[0], ast.Name) and isinstance(s.value, (ast.Tuple, ast.List)):
             consts[s.targets[0].id] = _Fold(env).visit(copy.deepcopy(s.value))
+        if isinstance(s, ast.AnnAssign) and isinstance(s.target, ast.Name) and isinstance(s.value, (ast.Tuple, ast.List)):
+            consts[s.target.id] = _Fold(env).visit(copy.deepcopy(s.value))
         if isinstance(s, ast.For):
             it = s.iter
             if isinstance(it, ast.Name) and it.id in consts:
@@ -67,14 +84,14 @@ def _expand(stmts, env, consts):
                                 e2[t.id] = v
                     else:
                         return None
-                    sub = _expand(s.body, e2, consts)
+                    sub = _expand(s.body, e2, consts, funcs, depth)
                     if sub is None:
                         return None
                     out += sub
                 continue
             return None
         if isinstance(s, (ast.If, ast.With)):
-            sub = _expand(s.body, env, consts)
+            sub = _expand(s.body, env, consts, funcs, depth)
             if sub is None:
                 return None
             out += sub
@@ -94,7 +111,8 @@ def _gen_script(ctx):
                 and isinstance(n.value, ast.Call) and u(n.value.func).endswith("ConfigDict"):
             configs[n.targets[0].id] = {k.arg: ast.literal_eval(k.value) for k in n.value.keywords}
     # the calls the script performs, with literal loops unrolled (a refactoring of four calls into a loop is the same script)
-    flat = _expand([s_ for s_ in tree.body if not isinstance(s_, (ast.FunctionDef, ast.ClassDef, ast.Import, ast.ImportFrom))], {}, {})
+    funcs = {f.name: f for f in tree.body if isinstance(f, ast.FunctionDef)}
+    flat = _expand([s_ for s_ in tree.body if not isinstance(s_, (ast.FunctionDef, ast.ClassDef, ast.Import, ast.ImportFrom))], {}, {}, funcs)
     if flat is None:
         ctx.broken(f"{GEN}: a loop over something other than a literal sequence drives write_schema")
     calls = [n for s_ in flat for n in ast.walk(s_) if isinstance(n, ast.Call) and u(n.func) == "write_schema"]
